@@ -44,6 +44,7 @@ func init() {
 			s := newSeqRT(c)
 			c.guard("SEQ.STACK.HEIGHT", s.ruleStack)
 			c.guard("SEQ.STACK.HEIGHT", s.ruleStackNested)
+			c.guard("SEQ.STACK.HEIGHT", s.ruleStackCombineBody)
 			c.guard("SEQ.STACK.REC", s.ruleNoStaticRecursion)
 		},
 	})
